@@ -56,8 +56,33 @@ pub fn mapping_m4() -> Vec<Line> {
     }
     v
 }
+/// one method with 20 ascending disjoint ranges (entry i: lines 4i+1..4i+2) and, in the middle, one range that encloses
+/// the next three (40..54): the lines 43, 44, 47, 48, 51, 52 resolve through the enclosing entry only
+pub fn mapping_m5() -> Vec<Line> {
+    let mut v = vec![class("s.Run", "run")];
+    for i in 0..20u64 {
+        if i == 10 {
+            v.push(method(Some((40, 54)), None, "odd", "", Orig::SE(7000, 7014), "s"));
+        }
+        v.push(method(Some((4 * i + 1, 4 * i + 2)), None, leak(&format!("o{}", i)), "", Orig::SE(1000 + 4 * i, 1001 + 4 * i), "s"));
+    }
+    v
+}
+/// by-parameters entries whose obfuscated names / parameter strings are in prefix relation with a '$' continuation
+/// (the tuple order (name, params) and the order of the concatenation "name(params)" differ)
+pub fn mapping_m6() -> Vec<Line> {
+    vec![
+        class("p.Pre", "a.p"),
+        method(None, None, "load", "Config", Orig::None, "a"),
+        method(None, None, "loadDefault", "Config", Orig::None, "a$default"),
+        method(None, None, "withBuilder", "Config$Builder", Orig::None, "a"),
+        method(None, None, "plain", "", Orig::None, "a"),
+        method(None, None, "defaultWithBuilder", "Config$Builder", Orig::None, "a$default"),
+        method(None, None, "dash", "Config", Orig::None, "a-x"),
+    ]
+}
 pub fn mappings() -> Vec<(&'static str, Vec<Line>)> {
-    vec![("empty", vec![]), ("M1 (inline group + sourceFile)", mapping_m1()), ("M2 (knows none of the names)", mapping_m2()), ("M4 (M1 + R8 metadata comments)", mapping_m4()), ("M3 (M4 + 40-deep inline group)", mapping_m3())]
+    vec![("empty", vec![]), ("M1 (inline group + sourceFile)", mapping_m1()), ("M2 (knows none of the names)", mapping_m2()), ("M4 (M1 + R8 metadata comments)", mapping_m4()), ("M3 (M4 + 40-deep inline group)", mapping_m3()), ("M5 (sorted run + enclosing range)", mapping_m5()), ("M6 (by-params names in prefix relation)", mapping_m6())]
 }
 
 // ---------------------------------------------------------------------------------------------
@@ -581,6 +606,20 @@ fn c08_run_lengths(builts: &[Built], acc: &mut Acc) {
 /// typed traces whose frames carry a parameter list instead of a line (`StackFrame::with_parameters`): a frame that
 /// resolves is replaced by the entries with that parameter list (R10), any other frame is kept unchanged -
 /// including its parameter list, read through the accessor
+/// typed traces over mapping M5: two frames at lines L, L+1 for every L in 0..=90 (the lines that resolve through the
+/// enclosing entry only are among them)
+fn c08_sorted_run(builts: &[Built], acc: &mut Acc) {
+    let Some(b) = builts.iter().find(|b| b.label.starts_with("M5")) else { return };
+    let mut ab = Aligned::new(&[]);
+    with_both(b, &mut ab, |m, c| {
+        for l in 0..=90usize {
+            let t = OTrace { exception: Some(("run".to_string(), Some("boom".to_string()))), frames: vec![("run".to_string(), "s".to_string(), l, Some("F.java".to_string())), ("run".to_string(), "s".to_string(), l + 1, Some("F.java".to_string()))], cause: None };
+            check_typed(b, &t, true, m, c, acc);
+            acc.count("sorted-run typed traces", 1);
+        }
+    });
+}
+
 fn c08_param_frames(builts: &[Built], acc: &mut Acc) {
     let pool: Vec<(String, String, String)> = {
         let mut v = Vec::new();
@@ -588,6 +627,9 @@ fn c08_param_frames(builts: &[Built], acc: &mut Acc) {
             for p in ["", "int", "zz.Unknown"] {
                 v.push((c.to_string(), m.to_string(), p.to_string()));
             }
+        }
+        for (m, p) in [("a", "Config"), ("a$default", "Config"), ("a", "Config$Builder"), ("a", ""), ("a$default", "Config$Builder"), ("a-x", "Config")] {
+            v.push(("a.p".to_string(), m.to_string(), p.to_string()));
         }
         v
     };
@@ -687,6 +729,9 @@ pub fn run_c08(tier: Tier) -> i32 {
         if (ti, fi) == (1, 0) {
             c08_param_frames(&builts, acc);
         }
+        if (ti, fi) == (2, 0) {
+            c08_sorted_run(&builts, acc);
+        }
         let mut abs: Vec<Aligned> = vec![Aligned::new(&[]), Aligned::new(&[])];
         let (a1, a2) = abs.split_at_mut(1);
         with_both(&builts[4], &mut a1[0], |m1, c1| {
@@ -742,7 +787,7 @@ pub fn run_c08(tier: Tier) -> i32 {
         prop: "C08",
         tier,
         level: "model_checking",
-        rule: format!("every typed trace with a top level from {} levels (exception absent / known / unknown x message / none; 0..2 frames over 8 frame kinds: resolving to 2 frames, unknown method, unknown class, entry without lines, known method with a line outside every range, two class names with a module prefix containing '/', a frame resolving to 40 frames) and cause chains of depth 0..={} (first cause level: {}; deeper levels: {} ) x 2 mappings x {{mapper, cache}}; plus typed traces of 1..2 frames built with StackFrame::with_parameters over 15 (class, method, parameter list) triples (a resolving frame is replaced by the entries with that parameter list, any other is kept unchanged including its parameter list; the mapper without the index keeps all or resolves likewise) on mapper / mapper-with-index / cache; plus long traces (99..1001 unresolved frames followed by resolving ones, frames that differ only in their file); oracle R13 (same depth, every throwable remapped-or-identical, every frame expanded-or-identical, order kept) and, for every trace, printed typed result == text API on the printed input. distinct = distinct expected traces; non-trivial = expected != input", nlevels, max_depth, if t { "all levels with an exception" } else { "levels with an exception and <= 1 frame" }, if t { "depth 2: the first 40 levels with an exception, depth 3: the 8-level pool {known, unknown} x {no frame, resolving, '/'-class, 40-deep}; plus depth-4 chains: first level <= 1 frame, then the 8-level pool" } else { "the 8-level pool {known, unknown} x {no frame, resolving, '/'-class, 40-deep}" }),
+        rule: format!("every typed trace with a top level from {} levels (exception absent / known / unknown x message / none; 0..2 frames over 8 frame kinds: resolving to 2 frames, unknown method, unknown class, entry without lines, known method with a line outside every range, two class names with a module prefix containing '/', a frame resolving to 40 frames) and cause chains of depth 0..={} (first cause level: {}; deeper levels: {} ) x 2 mappings x {{mapper, cache}}; plus typed traces of 1..2 frames built with StackFrame::with_parameters over 21 (class, method, parameter list) triples (incl. names and parameter strings in prefix relation with a '$' continuation) (a resolving frame is replaced by the entries with that parameter list, any other is kept unchanged including its parameter list; the mapper without the index keeps all or resolves likewise) on mapper / mapper-with-index / cache; plus long traces (99..1001 unresolved frames followed by resolving ones, frames that differ only in their file); plus two-frame traces at every line 0..=90 of a method with 20 ascending ranges and one enclosing range; oracle R13 (same depth, every throwable remapped-or-identical, every frame expanded-or-identical, order kept) and, for every trace, printed typed result == text API on the printed input. distinct = distinct expected traces; non-trivial = expected != input", nlevels, max_depth, if t { "all levels with an exception" } else { "levels with an exception and <= 1 frame" }, if t { "depth 2: the first 40 levels with an exception, depth 3: the 8-level pool {known, unknown} x {no frame, resolving, '/'-class, 40-deep}; plus depth-4 chains: first level <= 1 frame, then the 8-level pool" } else { "the 8-level pool {known, unknown} x {no frame, resolving, '/'-class, 40-deep}" }),
         bounds: json!({"top_levels": nlevels, "max_cause_depth": max_depth, "throwables": THROWABLES.iter().map(|t| format!("{:?}", t)).collect::<Vec<_>>(), "frames": FRAMES.iter().map(|f| format!("{:?}", f)).collect::<Vec<_>>()}),
         assumptions: vec!["canonical printed form: frames carry a file, cause levels carry an exception, the top level has an exception or a frame".into()],
         trusted_base: vec!["rustc/std".into(), "reference model pgmc/src/model.rs + model_typed in pgmc/src/props/e3.rs".into()],
